@@ -16,7 +16,7 @@ RULE = ("Containers.tla: representations (plain buffer, ring buffer with every h
 def run(ctx):
     q = ctx.quick
     r = ctx.tlc("cont", "MCContainers", "MCContainers_quick.cfg" if q else "MCContainers_thorough.cfg", workers=8, timeout=3000)
-    binp = ctx.build("tvh-cont", features=None if q else "pl", timeout=6000)
+    binp = ctx.build("tvh-cont", features="pl", timeout=6000)
     ctx.harness("cont", binp, ["replay-cont", "--in", r["emitted"]])
     # the driver-level matrix of C02 (call protocol on every backend / output / path) belongs here too
     rw = ctx.tlc("window", "MCWindow", "MCWindow_small.cfg" if q else "MCWindow.cfg", workers=8, timeout=900)
@@ -27,8 +27,7 @@ def run(ctx):
                                          "--in", rr["emitted"]])
     ctx.assumptions += BASE_ASSUMPTIONS + [
         "std VecDeque, ndarray and Polars internals are trusted; the specification models the adapter logic tevec adds",
-        "quick tier: no Polars (its build takes minutes); the chunked representation is then exercised through the option "
-        "encoding only. Thorough tier builds the harness with the Polars feature",
+        "the harness is built with the Polars feature in both tiers (bin/check --setup pays the cold build once)",
         "what a driver reports as removed at the final position of a window longer than the series is left open by C02 and "
         "excluded from the bit-identity comparison",
     ]
